@@ -7,6 +7,7 @@ import JominiModel.Proofs.JsonGroup
 import JominiModel.Spec.JsonDoc
 import JominiModel.Proofs.JsonDoc
 import JominiModel.Proofs.JsonTape
+import JominiModel.Proofs.JsonUtf8
 /-
 C16 — JSON conversion is valid JSON and carries the document's content.
 Only property theorems live here; helper lemmas are in `Proofs/Json*.lean`.
@@ -272,5 +273,30 @@ theorem C16_content_tapeOf (o : Opts) (enc : Enc) (d : Doc) (h : docOk d = true)
 example : docOk ⟨[.mk (.unquoted [99]) none (.header [114, 103, 98] (.arr false [.val (.scalar false [49])])),
       .mk (.unquoted [99]) none (.obj false false [.mk (.unquoted [97]) (some .gt) (.scalar false [50])] [])],
     false, []⟩ = true := by decide +kernel
+
+/-! ### the first sentence of the property, end to end on the model -/
+
+/-- `String::from_utf8_lossy` (as modelled after std's `Utf8Chunks`) and the Windows-1252
+table only ever produce well-formed UTF-8 (no overlong forms, no surrogates, nothing
+truncated), whatever bytes the scalar holds. -/
+theorem C16_decode_utf8 (enc : Enc) (raw : Bytes) : validUtf8 (decode enc raw) = true :=
+  (V_iff _).mpr (V_decode enc raw)
+
+/-- For every well-formed tape, all options, both encodings: the conversion succeeds and the
+bytes written (minified or pretty) are a JSON text of the RFC 8259 grammar AND well-formed
+UTF-8.  (`ff` = the float printer; assumed only to print RFC 8259 numbers.) -/
+theorem C16_valid_output (ff : Nat → Bytes) (hff : ∀ b, isNumber (ff b) = true)
+    (t : Tape) (h : WfTape t) (o : Opts) (enc : Enc) :
+    ∃ v, toJson o enc .obj t = .ok (some v) ∧ JsonText (render ff o v) ∧ validUtf8 (render ff o v) = true := by
+  obtain ⟨d, hd⟩ := h
+  refine ⟨jsonOfDoc o enc d, toJson_obj_doc o enc t d hd, ?_, ?_⟩
+  · unfold render
+    split
+    · exact jsonText_pretty ff hff _
+    · exact jsonText_compact ff hff _
+  · exact (V_iff _).mpr (V_render ff hff o _ (jsonOfDoc_ok o enc d))
+
+example : validUtf8 (decode .utf8 [0x61, 0xC3, 0x28, 0xE2, 0x82, 0x5C, 0xF5, 0x20]) = true := by decide +kernel
+example : decode .utf8 [0x61, 0xC3, 0x28, 0xF5, 0x20] = [0x61, 0xEF, 0xBF, 0xBD, 0x28, 0xEF, 0xBF, 0xBD] := by decide +kernel
 
 end Jomini.Props.C16
